@@ -133,8 +133,9 @@ def generate(rng, tier):
                       "tol": rng.choice([1e-3, 1e-6, 1e-9])}
     else:
         case["edges"] = gen_edges(rng, n, False, False)
-        if fn == "topological_sort_edges" and rng.random() < 0.6:  # make acyclic instances common
-            case["edges"] = [[min(u, v), max(u, v)] for u, v in case["edges"] if u != v]
+        if fn == "topological_sort_edges" and rng.random() < 0.6:  # make acyclic instances common ...
+            keep_loops = rng.random() < 0.3  # ... and instances whose only cycle is a self loop
+            case["edges"] = [[min(u, v), max(u, v)] for u, v in case["edges"] if u != v or keep_loops]
         case["kw"] = {}
     return case
 
@@ -142,12 +143,13 @@ def generate(rng, tier):
 # ------------------------------------------------------------------------------------------- execution and oracles
 
 
-def call(case, backend):
+def call(case, backend, edges=None):
     import importlib
     import solvor
 
     fn = getattr(solvor, case["fn"])
-    edges = [tuple(e) for e in case["edges"]]
+    if edges is None:
+        edges = [tuple(e) for e in case["edges"]]
     kw = dict(case["kw"])
     if backend is not None:
         kw["backend"] = backend
@@ -251,11 +253,11 @@ def compare(case, a, b, la, lb):
         if d > 10 * tol:
             return "answers_differ", f"PageRank scores differ by {d} > 10*tol: {la}={a.solution} {lb}={b.solution}"
         if sa != sb:
-            # float summation order may flip the convergence test only on the very iteration where max_diff ~ tol
-            if abs(a.iterations - b.iterations) > 1 and not (a.iterations == case["kw"]["max_iter"] or b.iterations == case["kw"]["max_iter"]):
-                return "status_differs", f"{la} {sa} after {a.iterations} iterations, {lb} {sb} after {b.iterations}"
-            if d > tol:
-                return "status_differs", f"{la} {sa}, {lb} {sb} with scores {d} apart"
+            # float summation order may flip the convergence test only when the last max_diff sits on tol itself
+            # (the Python body reports that max_diff as its objective)
+            if abs(a.objective - tol) > 1e-12 + 1e-9 * tol:
+                return "status_differs", (f"{la} {sa} after {a.iterations} iterations (last max_diff {a.objective!r}, tol {tol}), "
+                                          f"{lb} {sb} after {b.iterations}")
         return None
     if sa != sb:
         return "status_differs", f"{la} says {sa}, {lb} says {sb}"
@@ -317,9 +319,12 @@ def execute(case) -> Outcome:
         o.violate(PROP, "invalid_answer", err, route="python", **key)
     feats = features(case)
     if world == "rust":
+        # the three routes share ONE input list, as a caller comparing back-ends would; afterwards the Python
+        # route must still give the answer it gives on a pristine copy (an adapter must not leak state through its input)
+        shared = [tuple(e) for e in case["edges"]]
         for route, be in (("rust", "rust"), ("default", None)):
             try:
-                r = call(case, be)
+                r = call(case, be, shared)
             except ERRORS as e:
                 o.violate(PROP, f"exception:{type(e).__name__}", f"backend={route} raised {type(e).__name__}: {e} (python gave {py.status.name})",
                           route=route, **key)
@@ -332,6 +337,14 @@ def execute(case) -> Outcome:
             if d:
                 o.violate(PROP, d[0], f"{name}: {d[1]}", route="rust" if route == "default" else route, **key)
             o.trace.append([route, r.status.name, repr(r.objective)])
+        try:
+            again = call(case, "python", shared)
+            d = compare(case, py, again, "python(pristine input)", "python(after rust calls on the same list)")
+            if d or shared != [tuple(e) for e in case["edges"]]:
+                o.violate(PROP, "history_dependent", f"{name}: after backend='rust' ran on the same edge list, backend='python' answers "
+                          f"differently / the caller's list was changed: {d[1] if d else shared}", route="rust", **key)
+        except ERRORS as e:
+            o.violate(PROP, f"exception:{type(e).__name__}", f"python after rust on the same list raised {e}", route="rust", **key)
         o.nontrivial = bool(feats)
     else:
         o.fault("backend_unavailable")
